@@ -244,7 +244,10 @@ func (s *httpServer) doPUB(w http.ResponseWriter, req *http.Request, ps httprout
 		if err != nil {
 			return nil, http_api.Err{400, "INVALID_DEFER"}
 		}
-		deferred = time.Duration(di) * time.Millisecond
+		if di < 0 {
+			return nil, http_api.Err{400, "INVALID_DEFER"}
+		}
+		deferred = millisToDuration(uint64(di))
 		if deferred < 0 || deferred > s.nsqd.getOpts().MaxReqTimeout {
 			return nil, http_api.Err{400, "INVALID_DEFER"}
 		}
